@@ -340,7 +340,9 @@ func (p *Plugin) out(workerData *pipeline.WorkerData, batch *pipeline.Batch) err
 
 	dataArr := root.AddFieldNoAlloc(root, "data").MutateToArray()
 	batch.ForEach(func(event *pipeline.Event) {
-		dataArr.AddElementNoAlloc(root).MutateToNode(event.Root.Node)
+		// the entry gets its own copy of the event: send() removes the timestamp and message fields from it with
+		// Suicide(), which must not rewire the nodes of the event itself (the batch is offered again on a retry)
+		dataArr.AddElementNoAlloc(root).MutateToJSON(root, event.Root.EncodeToString())
 	})
 
 	code, err := p.send(root)
